@@ -37,7 +37,7 @@ impl OFCase {
             self.path,
             self.container,
             self.sched,
-            if self.recs.is_empty() { "-".to_string() } else { self.recs.iter().map(|r| hex(r)).collect::<Vec<_>>().join(",") }
+            if self.recs.is_empty() { "-".to_string() } else { self.recs.iter().map(|r| hexr(r)).collect::<Vec<_>>().join(",") }
         )
     }
     pub fn parse(line: &str) -> Option<OFCase> {
